@@ -1,6 +1,8 @@
 (* Extraction of the C20 model (polynomial arithmetic + serial math utils over an FOps record) for the
    correspondence driver.  The model is instantiated by the driver at zp_ops P64 / P62 / P128 and at the
-   quadratic / cubic extension records of Model/PolynomExt.v (carriers Z*Z and Z*Z*Z).
+   quadratic / cubic extension records of Model/PolynomExt.v (carriers Z*Z and Z*Z*Z); the mixed instantiations
+   (eval<B,E>, eval_many<B,E>, mul_acc<F,E>) are extracted generically and applied by the driver to the same
+   zp_ops p and ExtensibleField vtables (f64_x2 ... f62_x3) the extension records are built from.
    Directives: ExtrOcamlBasic only (Z / N / nat stay inductive). *)
 From Coq Require Extraction ExtrOcamlBasic.
 From VBase Require Import FieldOps ZpOps.
@@ -10,6 +12,8 @@ Extraction Language OCaml.
 Separate Extraction
   zp_ops P64 P62 P128
   quad64_ops quad62_ops quad128_ops cube64_ops cube62_ops
+  f64_x2 f62_x2 f128_x2 f64_x3 f62_x3
+  eval_mixed_quad eval_many_mixed_quad mul_acc_mixed_quad eval_mixed_cube eval_many_mixed_cube mul_acc_mixed_cube
   eval eval_many degree_of remove_leading_zeros add sub mul mul_by_scalar div div_full
   syn_div syn_div_in_place syn_div_in_place_full syn_div_roots_in_place poly_from_roots
   get_power_series get_power_series_with_offset add_in_place mul_acc batch_inversion
